@@ -184,6 +184,84 @@ def h_len(tr, c, a, dty):
     return V("usize", tr.enc.int_const("usize", len(s.items))), "false"
 
 
+def concrete_int(term):
+    """value of a closed integer / bit-vector term (lengths of concrete sequences, min / max / differences of them)"""
+    import smt
+    try:
+        e = smt.parse_sexprs(term)[0]
+    except Exception:
+        raise NotTranslatable("not a closed term: %s" % term)
+
+    def ev(x):
+        if isinstance(x, str):
+            if x in ("true", "false"):
+                return x == "true"
+            if re.fullmatch(r"-?\d+", x):
+                return int(x)
+            if x.startswith("#x"):
+                return int(x[2:], 16)
+            if x.startswith("#b"):
+                return int(x[2:], 2)
+            raise NotTranslatable("symbolic length: %s" % x)
+        if x and x[0] == "_" and isinstance(x[1], str) and x[1].startswith("bv"):
+            return int(x[1][2:])
+        op, args = x[0], [ev(y) for y in x[1:]]
+        W = 1 << 64
+        sg = lambda v: v - W if v >= W // 2 else v
+        if op == "ite":
+            return args[1] if args[0] else args[2]
+        if op in ("+", "bvadd"):
+            r = sum(args)
+            return r % W if op == "bvadd" else r
+        if op == "-":
+            return -args[0] if len(args) == 1 else args[0] - sum(args[1:])
+        if op == "bvsub":
+            return (args[0] - args[1]) % W
+        if op in ("*", "bvmul"):
+            r = 1
+            for v in args:
+                r *= v
+            return r % W if op == "bvmul" else r
+        if op in ("<=", "bvule"):
+            return args[0] <= args[1]
+        if op in ("<", "bvult"):
+            return args[0] < args[1]
+        if op in (">=", "bvuge"):
+            return args[0] >= args[1]
+        if op in (">", "bvugt"):
+            return args[0] > args[1]
+        if op in ("bvsle", "bvslt", "bvsge", "bvsgt"):
+            a_, b_ = sg(args[0]), sg(args[1])
+            return {"bvsle": a_ <= b_, "bvslt": a_ < b_, "bvsge": a_ >= b_, "bvsgt": a_ > b_}[op]
+        if op == "=":
+            return args[0] == args[1]
+        if op == "and":
+            return all(args)
+        if op == "or":
+            return any(args)
+        if op == "not":
+            return not args[0]
+        raise NotTranslatable("operator %s in a length term" % op)
+    v = ev(e)
+    if isinstance(v, bool):
+        raise NotTranslatable("boolean where a length was expected")
+    return v
+
+
+def h_slice_index(tr, c, a, dty):
+    """seq[..n], seq[n..], seq[m..n] on a sequence of concrete length with closed bounds; out of range = panic"""
+    s, r = a[0], a[1]
+    if not isinstance(s, Seq) or not s.plain() or not isinstance(r, Tup):
+        raise NotTranslatable("slice index on %r" % (s,))
+    kind = re.search(r"Index<(?:std::ops::|core::ops::)?(RangeTo|RangeFrom|Range)<usize>>", c).group(1)
+    n = len(s.items)
+    bounds = [concrete_int(x.t) for x in r.items]
+    lo, hi = (0, bounds[0]) if kind == "RangeTo" else ((bounds[0], n) if kind == "RangeFrom" else (bounds[0], bounds[1]))
+    if lo > hi or hi > n:
+        return Seq([]), "true"
+    return Seq(s.items[lo:hi]), "false"
+
+
 def h_is_empty(tr, c, a, dty):
     return V("bool", "true" if len(a[0].items) == 0 else "false"), "false"
 
@@ -290,6 +368,7 @@ STUBS = [
     (r"core::slice::<impl \[.+\]>::len", h_len),
     (r"Vec::<.+>::len", h_len),
     (r"core::slice::<impl \[.+\]>::is_empty", h_is_empty),
+    (r"<\[.+\] as (?:std::ops::|core::ops::)?Index<(?:std::ops::|core::ops::)?(?:RangeTo|RangeFrom|Range)<usize>>>::index", h_slice_index),
     (r"Vec::<.+>::as_slice", h_identity),
     (r"<Vec<.+> as Deref>::deref", h_identity),
     (r"<.+ as AsRef<.+>>::as_ref", h_identity),
